@@ -110,7 +110,18 @@ func (p *PortSet) Union(other *PortSet) {
 
 // ContainedIn: return true if current PortSet object is contained in input PortSet object
 func (p *PortSet) ContainedIn(other *PortSet) bool {
-	return p.Ports.IsSubset(other.Ports)
+	if !p.Ports.IsSubset(other.Ports) {
+		return false
+	}
+	// a named port of p is contained in other if other has this named port too,
+	// or if other allows all the port numbers (any number the name may stand for)
+	otherHasAllPorts := other.Ports.Equal(interval.New(minPort, maxPort).ToSet())
+	for namedPort := range p.NamedPorts {
+		if !other.NamedPorts[namedPort] && !otherHasAllPorts {
+			return false
+		}
+	}
+	return true
 }
 
 // Intersection: update current PortSet object as intersection with input PortSet object
